@@ -531,7 +531,11 @@ class HedSchema(HedSchemaBase):
 
         remainder = None
         if current_slash_index != -1:
-            remainder = clean_tag[current_slash_index:]
+            # casefold() can change the length of the text ('ß' -> 'ss'): find the same slash in the text as written.
+            index_as_written = -1
+            for _ in range(working_tag.count("/", 0, current_slash_index) + 1):
+                index_as_written = clean_tag.find("/", index_as_written + 1)
+            remainder = clean_tag[index_as_written:]
         if remainder and found_entry.takes_value_child_entry:
             found_entry = found_entry.takes_value_child_entry
 
